@@ -28,6 +28,17 @@ Fixpoint frame_check_from (i : nat) (ws : list leaf) (objs : list obj) (changed 
   end.
 Definition frame_check := frame_check_from 0.
 
+(** two objects share storage when some leaf occurs in both *)
+Definition shares (o1 o2 : obj) : bool := existsb (fun pl => mem (snd pl) (map snd o2)) o1.
+(** pairs (i, j), i < j, of objects in the list that share storage *)
+Fixpoint sharing_from (i : nat) (objs : list obj) : list (nat * nat) :=
+  match objs with
+  | [] => []
+  | o :: rest =>
+      map (fun j => (i, S i + j)) (filter (fun j => shares o (nth j rest [])) (seq 0 (length rest))) ++ sharing_from (S i) rest
+  end.
+Definition sharing := sharing_from 0.
+
 Section Heap.
   Variable V : Type.
   Definition heap := leaf -> V.
